@@ -168,6 +168,11 @@ func ppcCanonical(p ref.Pat) bool {
 
 func checkLiteral(t hx.TB, test string, k ref.FKind, lit string) {
 	if excluded(k, lit) {
+		// the known findings are about the printed pattern (payload lost, pair re-normalised): nothing else is
+		// forgiven for such a literal — it must still be read and printed without a panic or a rejection
+		if bad, _ := literalRoundTrip(k, lit); bad != "" && !strings.Contains(bad, " denotes bits ") {
+			hx.Fail(t, test, "txt", k.Name+" "+lit+"\n", "%s", bad)
+		}
 		return
 	}
 	bad, _ := literalRoundTrip(k, lit)
@@ -629,8 +634,9 @@ func TestReplay(t *testing.T) {
 		}
 		for _, k := range ref.FKinds {
 			if k.Name == kn {
-				if bad, _ := literalRoundTrip(k, lit); bad != "" {
-					hx.Fail(t, "Replay", "txt", line, "%s", bad)
+				checkLiteral(t, "Replay", k, lit)
+				if excluded(k, lit) {
+					continue // an open finding about the printed pattern: only panics and rejections are judged (checkLiteral)
 				}
 				ks = append(ks, k)
 				lits = append(lits, lit)
